@@ -122,6 +122,8 @@ def check(repo: Repo, rep: Report) -> None:
         if p.exc:
             continue
         hv = p.decided(hv_name)
+        if hv is None:
+            hv = p.decided(f"{hv_name}[0]")
         canc = p.decided(f"{fut}.cancelled()")
         desc = f"on_completed path[{' ; '.join(f'{t}={v}' for t, v in p.decisions)}] -> {p.kinds}"
         if canc:
@@ -162,12 +164,14 @@ def check(repo: Repo, rep: Report) -> None:
     exception = exc_v[0] if len(exc_v) == 1 else "?exception"
     latch = latches[0] if len(latches) == 1 else "?latch"
     rz = [s for s in sites(run) if isinstance(s.node, ast.Raise)]
+    from ..rules import uc
     def exc_present(e, p_):
-        return (p_ and u(e) in (exception, f"{exception} is not None")) or ((not p_) and u(e) == f"{exception} is None")
+        return (p_ and uc(e) in (exception, f"{exception} is not None")) or ((not p_) and uc(e) == f"{exception} is None")
     exc_raise = [s for s in rz if any(exc_present(e, p_) for e, p_ in s.ctx.guards)
                  and any(isinstance(x, ast.Name) and x.id == exception for x in ast.walk(s.node.exc))]
+    from ..rules import uc
     none_raise = [s for s in rz if has_guard(s.ctx, has_result, False) and "SequenceContainsNoElementsError" in u(s.node.exc)]
-    ret = [s for s in sites(run) if isinstance(s.node, ast.Return) and u(s.node.value) == result]
+    ret = [s for s in sites(run) if isinstance(s.node, ast.Return) and uc(s.node.value) == result]
     ok = bool(exc_raise) and bool(none_raise) and bool(ret) and exc_raise[0].index < none_raise[0].index < ret[0].index
     rep.ob("T3-blocking-result", run, "raise error; raise SequenceContainsNoElementsError if no element; return last", ok,
            "run(): the blocking result is not (error raised, else SequenceContainsNoElementsError when empty by the has_result "
@@ -184,12 +188,12 @@ def check(repo: Repo, rep: Report) -> None:
                 for x in (e.values if isinstance(e, ast.BoolOp) else [e]):
                     while isinstance(x, ast.UnaryOp) and isinstance(x.op, ast.Not):
                         x = x.operand
-                    if isinstance(x, ast.Name) and x.id == exception:
+                    if isinstance(x, (ast.Name, ast.Subscript)) and cell_name(x) == exception:
                         rep.ob("T3-blocking-result", run, "run(): recorded error tested by truthiness", False,
                                "run() decides whether the sequence failed by the truthiness of the exception object: a falsy exception "
                                "(an exception class defining __len__ / __bool__) is not raised -- run() returns the last element or "
                                "raises SequenceContainsNoElementsError instead of the sequence's error")
-                    elif isinstance(x, ast.Compare) and u(x.left) == exception and isinstance(x.ops[0], (ast.Is, ast.IsNot)):
+                    elif isinstance(x, ast.Compare) and uc(x.left) == exception and isinstance(x.ops[0], (ast.Is, ast.IsNot)):
                         rep.ob("T3-blocking-result", run, f"run(): `{short(x, 40)}`", True)
     waits = [s for s in sites(run) if isinstance(s.node, ast.Call) and dotted(s.node.func) == f"{latch}.wait"]
     for nm in ("on_error", "on_completed"):
